@@ -176,12 +176,46 @@ def models_for(n):
         b = st.env["features"].setdefault(name, z3.Bool("cpu_has_" + name))
         return one(b)
 
-    @reg(r"^(dot_product|euclidean_distance)_non_optimized$")
+    # ---- the plain loops are executed too (iterator adaptors modelled, the closure bodies from MIR)
+    @reg(r"^UnalignedVector::<f32>::iter$")
     def _(eng, st, callee, a, ty):
-        # the plain loop is the definition the vectorised paths are compared with
         st.env["path"] = "scalar"
-        return one(spec("dot" if callee.startswith("dot") else "euclid", n, swapped=eng.deref(a[0]).data["base"] == "b"))
+        base = eng.deref(a[0]).data["base"]
+        ptr = Agg("Ptr", None, {"base": base, "off": 0})
+        return one(Opaque("ElemIter", {"elems": [elem(st, ptr, k) for k in range(n)]}))
 
+    @reg(r"^<std::iter::Map<std::slice::ChunksExact<'_, u8>, .*> as Iterator>::zip::<")
+    def _(eng, st, callee, a, ty):
+        x, y = a[0].data["elems"], a[1].data["elems"]
+        return one(Opaque("ZipIter", {"pairs": [Agg("tuple", None, {0: p, 1: q}) for p, q in zip(x, y)]}))
+
+    @reg(r"^<std::iter::Zip<.*> as Iterator>::map::<f32, ")
+    def _(eng, st, callee, a, ty):
+        return one(Opaque("MapIter", {"items": list(a[0].data["pairs"]), "f": a[1]}))
+
+    @reg(r"^<std::iter::Map<std::iter::Zip<.*>, .*> as Iterator>::sum::<f32>$")
+    def _(eng, st, callee, a, ty):
+        return M.hof_start(eng, st, sum_step, {"items": list(a[0].data["items"]), "f": a[0].data["f"], "acc": z3.RealVal(0), "i": 0})
+
+    @reg(r"^core::f32::<impl f32>::max$|^core::f32::<impl f32>::min$")
+    def _(eng, st, callee, a, ty):
+        return one((FMAXR if callee.endswith("max") else FMINR)(a[0], a[1]))
+
+    return ms
+
+
+FMAXR = z3.Function("f32_max_r", z3.RealSort(), z3.RealSort(), z3.RealSort())
+FMINR = z3.Function("f32_min_r", z3.RealSort(), z3.RealSort(), z3.RealSort())
+
+
+def sum_step(eng, st, job, last):
+    if last is not None:
+        job["acc"] = job["acc"] + last
+    if job["i"] < len(job["items"]):
+        x = job["items"][job["i"]]
+        job["i"] += 1
+        return ("call", job["f"], [x])
+    return ("done", one(job["acc"]))
     return ms
 
 
@@ -203,6 +237,7 @@ def spec(kind, n, swapped=False):
 INLINE = [
     (re.compile(r"^simple_sse::(dot|euclid)_similarity_sse$"), r"^simple_sse::{name}$"),
     (re.compile(r"^simple_avx::(dot|euclid)_similarity_avx$"), r"^simple_avx::{name}$"),
+    (re.compile(r"^(dot_product|euclidean_distance)_non_optimized$"), r"^{name}$"),
     (re.compile(r"^hsum128_ps_sse$"), r"^hsum128_ps_sse$"),
     (re.compile(r"^hsum256_ps_avx$"), r"^hsum256_ps_avx$"),
 ]
